@@ -23,6 +23,8 @@ def run(ctx):
                    '(no static-storage write in any data source or what it reaches)', floor=30)
     chk.rule('S5', 'cmdline and filename leave their result NUL-terminated on every return path (the scratch buffer is '
                    'reused between tags and calls)', floor=2)
+    chk.rule('S6', 'the value a data source produced is used whenever its result is not negative: an empty command line or '
+                   'file name is recorded as empty, not as an error text', floor=1)
     chk.rule('S4', 'cmdline guards argv == NULL and argv[0] == NULL before using them, and the guarded outcome falls '
                    'back to the path', floor=2)
     chk.explanation = (
@@ -37,6 +39,10 @@ def run(ctx):
         chk.variant = variant.name
         prog = ctx.program(variant, 'lib')
         cg = ctx.callgraph(variant, 'lib')
+        if variant is facts.AS_CONFIGURED:
+            from rules import C05 as _c5
+            G_ = prog.require_func(_c5.GEN)
+            _c5.ds_failure_rule(chk, G_, G_.calls(_c5.DS_CALL), 'S6')
         summ = Summaries(cg)
         roots = common.entry_points(prog)
         # ---- S1 ------------------------------------------------------------------------
